@@ -257,6 +257,7 @@ def one_graph(ctx, gi, forced=None):
                        ("t4-sched", ["-Wl,--threads=4"], {"WILD_VERIF_SCHED": f"{seed + 1}:90", "WILD_VERIF_SCHED_SITES": "request file"}),
                        ("t16-sched-all", ["-Wl,--threads=16"], {"WILD_VERIF_SCHED": f"{seed + 2}", "WILD_FILES_PER_GROUP": "1"})]
         ok_all = True
+        take_counts = []
         for tag, extra, env in scheds:
             out = os.path.join(dd, f"wild.{tag}.out")
             evlog = os.path.join(dd, f"ev.{tag}.log")
@@ -300,8 +301,11 @@ def one_graph(ctx, gi, forced=None):
                 ctx.note("FILE_TAKE_LOST-events", lost)
                 if len(set(takes)) != len(takes):
                     problems.append(("exactly-once:file-taken-twice", "evlog", None))
-                lazy_loaded = len([m for m in exp if not case["archives"][case["members"][m]["archive"]]["whole"]])
-                ctx.note("takes-match-lazy-members" if len(takes) == lazy_loaded + sys_members else "takes-count-differs-from-lazy-members")
+                # the number of activations is a property of the link line, not of the schedule
+                if take_counts and len(takes) != take_counts[0][1]:
+                    problems.append(("exactly-once:activation-count-varies-with-schedule", f"evlog ({take_counts[0]} vs {tag}:{len(takes)})", None))
+                take_counts.append((tag, len(takes)))
+                ctx.note("activation-count-compared")
             if problems:
                 ok_all = False
                 seen = set()
